@@ -63,7 +63,7 @@ def canon(v):
         return _raw(v)
     except BaseException as e:      # noqa - total by construction
         if isinstance(e, (SimInterrupt, SimBudget, SimCrash,
-                          KeyboardInterrupt)):
+                          KeyboardInterrupt)):  # never swallow these
             raise
         return ['raw', type(v).__name__, f'<canon failed: {type(e).__name__}>']
 
